@@ -3,6 +3,9 @@
 # Applies /verif/seeded/<id>/patch.diff to /repo, runs the quick check of the given properties
 # (default: the property named in meta.json), prints the outcome, and always reverts /repo.
 set -u
+# evidence and replay files of runs against a deliberately broken tree go to a scratch directory
+export SIMPLC_OUT_DIR="${SIMPLC_OUT_DIR:-/tmp/simplc-sensitivity-out}"
+mkdir -p "$SIMPLC_OUT_DIR"
 D="$(cd "$1" && pwd)"; shift
 cd /verif
 PROPS="$*"
